@@ -1,6 +1,6 @@
 (* Extraction unit c15: clustering (track_finding.rs) and vertex bookkeeping (vertex_fitting.rs). *)
 From Coq Require Import Extraction ExtrOcamlBasic.
-From AG Require Import Base.Prelude Base.Res Recon.Vec Recon.Cluster Recon.Vertex.
+From AG Require Import Base.Prelude Base.Res Recon.Vec Recon.Cluster Recon.Vertex Recon.Bins.
 
 Extraction Language OCaml.
 Extraction Blacklist String List Int Z Str Unix Array Bytes Char.
@@ -8,4 +8,5 @@ Extraction Blacklist String List Int Z Str Unix Array Bytes Char.
 Extraction "model.ml"
   Base.Prelude.ex_base Base.Res.res
   Recon.Cluster.cluster_spacepoints_pub Recon.Cluster.largest_cluster
-  Recon.Vertex.find_vertices Recon.Vertex.beamline_clusters.
+  Recon.Vertex.find_vertices Recon.Vertex.beamline_clusters
+  Recon.Bins.get_bins_res.
